@@ -307,6 +307,17 @@ def make_guard(cbid0, kind, is_async):
             _guard_fault(machine.H, cbid)
             return machine.H.val.get(cbid, False)
 
+    if kind == "func":
+        if is_async:
+
+            async def free(*args, machine, **kwargs):
+                return await g(None, *args, machine=machine, **kwargs)
+        else:
+
+            def free(*args, machine, **kwargs):
+                return g(None, *args, machine=machine, **kwargs)
+
+        return free
     return g
 
 
@@ -423,6 +434,7 @@ def render(spec, *, cname=None, register=True):
             prov_ns.setdefault(prov, {})
         elif not free and c["attach"] != "bound":
             prov_ns.setdefault(prov, {})[c["name"]] = fn
+    guard_fns = {}
     for g in guards:
         if g["prov"] in same:
             continue
@@ -432,6 +444,11 @@ def render(spec, *, cname=None, register=True):
             prov_ns.setdefault(g["prov"], {})[g["name"]] = None
             continue
         fn = make_guard(cid, g.get("kind", "method"), g.get("async", False))
+        if g.get("kind") == "func":
+            # a free function passed as the guard itself: cond=fn / unless=fn (no provider object, no name lookup)
+            _name(fn, g["name"], f"{cname}_free_{g['name']}")
+            guard_fns[g["name"]] = fn
+            continue
         _name(fn, g["name"], f"{cname}_{g['prov']}.{g['name']}")
         prov_ns.setdefault(g["prov"], {})[g["name"]] = fn
 
@@ -522,7 +539,8 @@ def render(spec, *, cname=None, register=True):
             kw["internal"] = True
         for grp in ("cond", "unless"):
             if t.get(grp):
-                kw[grp] = list(t[grp]) if len(t[grp]) > 1 or not style else t[grp][0]
+                items = [guard_fns.get(x, x) for x in t[grp]]
+                kw[grp] = items if len(items) > 1 or not style else items[0]
         for grp in ("validators", "before", "on", "after"):
             items = inline(grp, "trans", k)
             if items:
